@@ -468,7 +468,8 @@ class Interp:
         if callee == m.bool_variant:
             self._need_f(a[:1], line)
             return F(IFF(V("x_is_true"), a[0].f), tags=["Boolean"])
-        if callee in m.cmp_fns:
+        if callee in m.cmp_fns or (meth in ("cmp", "partial_cmp") and len(a) >= 2 and ("cmp::Ord" in callee or "cmp::PartialOrd" in callee or " as std::cmp::" in callee)):
+            # the comparison of the two decision variables, through the project's wrapper or through Ord directly
             return Val("cmp", items=a[:2])
         if callee.endswith("::is_empty") and a and a[0].kind == "f":
             v = Val("emptycheck", f=a[0].f)
